@@ -1187,7 +1187,7 @@ func checkTypeFuncs(c *Ctx) {
 			}
 			var elem types.Type
 			for i := 0; i < stt.NumFields(); i++ {
-				if stt.Field(i).Name() == "vals" {
+				if roleOf(stt.Field(i)) == "vals" {
 					if sl, ok := stt.Field(i).Type().Underlying().(*types.Slice); ok {
 						elem = sl.Elem()
 					}
